@@ -37,6 +37,7 @@ struct TokenParser {
     parse_steps: usize,
     max_parse_steps: usize,
     budget_exhausted: bool,
+    nesting_depth: usize,
 }
 
 impl TokenParser {
@@ -53,6 +54,11 @@ impl TokenParser {
     const BP_NOT: u8 = 40;
     const PARSE_STEP_FACTOR: usize = 2_048;
     const PARSE_STEP_FLOOR: usize = 50_000;
+    // Recursive descent uses one group of stack frames per nesting level (parenthesis, list,
+    // unary operator, nested subquery / FOREACH / shortestPath). The step budget bounds work,
+    // not depth, so depth is bounded separately to keep deeply nested input from overflowing
+    // the stack.
+    const MAX_NESTING_DEPTH: usize = 64;
 
     fn new(tokens: Vec<Token>) -> Self {
         let max_parse_steps = Self::max_parse_steps_for(tokens.len());
@@ -63,6 +69,7 @@ impl TokenParser {
             parse_steps: 0,
             max_parse_steps,
             budget_exhausted: false,
+            nesting_depth: 0,
         }
     }
 
@@ -138,6 +145,17 @@ impl TokenParser {
 
     fn parse_clause(&mut self) -> Result<Option<Clause>, Error> {
         self.ensure_budget()?;
+        self.nesting_depth += 1;
+        if self.nesting_depth > Self::MAX_NESTING_DEPTH {
+            self.nesting_depth -= 1;
+            return Err(Self::parser_complexity_error());
+        }
+        let result = self.parse_clause_inner();
+        self.nesting_depth -= 1;
+        result
+    }
+
+    fn parse_clause_inner(&mut self) -> Result<Option<Clause>, Error> {
         // Ignore optional trailing semicolons.
         if self.match_token(&TokenType::Semicolon) {
             return Ok(None);
@@ -574,6 +592,17 @@ impl TokenParser {
 
     fn parse_pattern(&mut self) -> Result<Pattern, Error> {
         self.ensure_budget()?;
+        self.nesting_depth += 1;
+        if self.nesting_depth > Self::MAX_NESTING_DEPTH {
+            self.nesting_depth -= 1;
+            return Err(Self::parser_complexity_error());
+        }
+        let result = self.parse_pattern_inner();
+        self.nesting_depth -= 1;
+        result
+    }
+
+    fn parse_pattern_inner(&mut self) -> Result<Pattern, Error> {
         let variable = if self.peek_is_identifier() && self.check_next(&TokenType::Equals) {
             let var = self.parse_identifier("path variable")?;
             self.consume(&TokenType::Equals, "Expected '='")?;
@@ -1002,6 +1031,17 @@ impl TokenParser {
 
     fn parse_expression_bp(&mut self, min_bp: u8) -> Result<Expression, Error> {
         self.ensure_budget()?;
+        self.nesting_depth += 1;
+        if self.nesting_depth > Self::MAX_NESTING_DEPTH {
+            self.nesting_depth -= 1;
+            return Err(Self::parser_complexity_error());
+        }
+        let result = self.parse_expression_bp_inner(min_bp);
+        self.nesting_depth -= 1;
+        result
+    }
+
+    fn parse_expression_bp_inner(&mut self, min_bp: u8) -> Result<Expression, Error> {
         let mut lhs = self.parse_prefix_expression()?;
 
         // Postfix null predicates: <expr> IS [NOT] NULL
